@@ -127,3 +127,107 @@ func HC12_Callback() {
 	}
 	vReach("end")
 }
+
+func init() { vRegister("HC12_DispatchWorld", HC12_DispatchWorld) }
+
+type hLA struct{ V int64 }
+type hLB struct{ V int32 }
+type hLR struct {
+	ecs.Relation
+	V int32
+}
+
+const hLogN = 16
+
+type hLog struct {
+	n     int
+	types [hLogN]event.Subscription
+	ent   [hLogN]ecs.Entity
+	added [hLogN]ecs.Mask
+}
+
+func (l *hLog) rec(e *ecs.EntityEvent) {
+	vBound(l.n < hLogN, "events<=16")
+	l.types[l.n], l.ent[l.n], l.added[l.n] = e.EventTypes, e.Entity, e.Added
+	l.n++
+}
+
+// HC12_DispatchWorld: a Dispatch installed in a world, with sub-listeners added
+// before and after it was installed, delivers to each of them exactly the events
+// the same listener receives when it is installed alone in a twin world driven
+// by the same operations. Subscriptions are fully symbolic.
+func HC12_DispatchWorld() {
+	w1, w2, w3 := ecs.NewWorld(), ecs.NewWorld(), ecs.NewWorld()
+	var ids [3][3]ecs.ID
+	for k, w := range [3]*ecs.World{&w1, &w2, &w3} {
+		ids[k] = [3]ecs.ID{ecs.ComponentID[hLA](w), ecs.ComponentID[hLB](w), ecs.ComponentID[hLR](w)}
+	}
+	s1 := event.Subscription(vU8("s1")) & event.All
+	s2 := event.Subscription(vU8("s2")) & event.All
+	var r1, r2 []ecs.ID
+	switch vChoice("restrict1", 3) {
+	case 1:
+		r1 = []ecs.ID{ids[0][0]}
+	case 2:
+		r1 = []ecs.ID{ids[0][1], ids[0][2]}
+	}
+	if vChoice("restrict2", 2) == 1 {
+		r2 = []ecs.ID{ids[0][2]}
+	}
+	var viaD1, viaD2, alone1, alone2 hLog
+	d1 := NewCallback(func(_ *ecs.World, e ecs.EntityEvent) { viaD1.rec(&e) }, s1, r1...)
+	d2 := NewCallback(func(_ *ecs.World, e ecs.EntityEvent) { viaD2.rec(&e) }, s2, r2...)
+	a1 := NewCallback(func(_ *ecs.World, e ecs.EntityEvent) { alone1.rec(&e) }, s1, r1...)
+	a2 := NewCallback(func(_ *ecs.World, e ecs.EntityEvent) { alone2.rec(&e) }, s2, r2...)
+	// world 1: Dispatch; world 2 / 3: the listeners alone
+	var d Dispatch
+	if vChoice("firstBefore", 2) == 1 {
+		d = NewDispatch(&d1)
+		w1.SetListener(&d)
+	} else {
+		d = NewDispatch()
+		w1.SetListener(&d)
+		d.AddListener(&d1)
+	}
+	w2.SetListener(&a1)
+	drive := func(phase int) {
+		for k, w := range [3]*ecs.World{&w1, &w2, &w3} {
+			A, B, R := ids[k][0], ids[k][1], ids[k][2]
+			if phase == 0 {
+				w.NewEntity()
+				e := w.NewEntity(A)
+				w.Add(e, B)
+			} else {
+				p := w.NewEntity()
+				e := w.NewEntity(A, B)
+				w.Exchange(e, []ecs.ID{R}, []ecs.ID{A})
+				w.Relations().Set(e, R, p)
+				w.Remove(e, B)
+				w.RemoveEntity(e)
+				ecs.NewBuilder(w, R).WithRelation(R).NewBatch(2, p)
+			}
+		}
+	}
+	drive(0)
+	// the second sub-listener joins while the Dispatch is installed
+	d.AddListener(&d2)
+	w3.SetListener(&a2)
+	n1 := alone1.n
+	drive(1)
+	same := func(x, y *hLog, from int) bool {
+		if x.n != y.n {
+			return false
+		}
+		ok := true
+		for i := 0; i < hLogN; i++ {
+			if i >= from && i < x.n {
+				ok = vAnd(ok, vAnd(x.types[i] == y.types[i], vAnd(x.ent[i] == y.ent[i], x.added[i] == y.added[i])))
+			}
+		}
+		return ok
+	}
+	_ = n1
+	vAssert(same(&viaD1, &alone1, 0), "a Dispatch installed in a world delivers to its first sub-listener exactly what it receives alone")
+	vAssert(same(&viaD2, &alone2, 0), "a sub-listener added to an installed Dispatch receives exactly what it would receive alone from then on")
+	vReach("end")
+}
